@@ -20,7 +20,7 @@ class MachineryError(Exception):
 
 
 def _java(args, env=None, timeout=3600, cwd=SPEC, heap="3g", extra_jvm=()):
-    cmd = ["java", "-XX:+UseParallelGC", "-Xmx" + heap] + list(extra_jvm) + ["-cp", JAR, "tlc2.TLC"] + args
+    cmd = ["java", "-XX:+UseParallelGC", "-Xss512m", "-Xmx" + heap] + list(extra_jvm) + ["-cp", JAR, "tlc2.TLC"] + args
     e = dict(os.environ)
     if env:
         e.update(env)
